@@ -229,6 +229,13 @@ func (ch *channel) parseModes(modes string, modeargs ...string) {
 				logging.Warn("Channel.ParseModes(): not enough arguments to "+
 					"process MODE %s %s%c", ch.name, modestr, m)
 			}
+		case 'b', 'e', 'I':
+			// List modes (ban, exception, invite masks) are not tracked, but
+			// they do take an argument: skip it so that the arguments of any
+			// later mode chars in the same line still line up.
+			if len(modeargs) != 0 {
+				modeargs = modeargs[1:]
+			}
 		default:
 			logging.Info("Channel.ParseModes(): unknown mode char %c", m)
 		}
